@@ -261,7 +261,7 @@ func c06Buffer(name string, guidWire []byte, attrs uint32, ts, payload []byte, v
 var c06NearMisses = []string{"terminator-added", "attrs-changed", "timestamp-zeroed", "payload-changed", "name-changed", "guid-big-endian", "fields-swapped"}
 
 func checkC06(r *mon.Run) {
-	r.Rule = "a child process per time-zone configuration TZ ∈ {UTC, Asia/Tokyo, America/Los_Angeles, Asia/Kathmandu, Pacific/Kiritimati, unset} runs SignEFIVariable over names {PK, KEK, db, dbx, dbt, 1-char, 40-char} × boundary/random GUIDs × attribute masks (incl. APPEND_WRITE, all-ones, zero) × payloads {empty database, SHA-256 lists, X.509 list, mixed, raw bytes} × pool keys; the bytes of the returned Marshallable are parsed positionally by the independent layout parser; timestamp must be the UTC time of the call (bracket read by the monitor around the call) with pad/ns/tz/daylight zero; the SignedData must be bare DER, detached, and verify under the RFC verifier and openssl over name(UTF-16LE, unterminated)‖GUID‖attrs‖timestamp‖payload and be rejected over 7 near-miss buffers. distinct = (TZ, name class, mask, payload kind)"
+	r.Rule = "a child process per time-zone configuration TZ ∈ {UTC, Asia/Tokyo, America/Los_Angeles, Asia/Kathmandu, Pacific/Kiritimati, unset} runs SignEFIVariable over names {PK, KEK, db, dbx, dbt, 1-char, 40-char, case variants of PK/KEK/db/dbx with the well-known GUIDs} × boundary/random GUIDs × attribute masks (incl. APPEND_WRITE, all-ones, zero) × payloads {empty database, SHA-256 lists, X.509 list, mixed, raw bytes} × pool keys; six updates go through WriteSignedUpdate on one long-lived store handle in quick succession (output = the recorded file write minus the attribute word); the bytes of the returned Marshallable are parsed positionally by the independent layout parser; timestamp must be the UTC time of the call (bracket read by the monitor around the call) with pad/ns/tz/daylight zero; the SignedData must be bare DER, detached, and verify under the RFC verifier and openssl over name(UTF-16LE, unterminated)‖GUID‖attrs‖timestamp‖payload and be rejected over 7 near-miss buffers. distinct = (TZ, name class, mask, payload kind)"
 	r.Assume("second-resolution timestamp; zones with offset 0 cannot show a local-time defect, hence several non-zero offsets including a 45-minute and a +14h one")
 	self, _ := os.Executable()
 	per := r.N(21, 400)
